@@ -389,7 +389,9 @@ def check(case):
                 q = outs_q[0]
                 net.n_ren += 1
                 new = 'O%d' % net.n_ren
-                cur.set_output_names({net.oren.get(q, q): new})
+                # (the second entry's key is no CURRENT output name - it is the name the first entry assigns -, so it names
+                # nothing: the entries of one call are not applied one after another)
+                cur.set_output_names({net.oren.get(q, q): new, new: 'chained ' + new})
                 net.oren[q] = new
             elif op in ('S1', 'S0'):
                 cur.enable_sensitivities(op == 'S1')
